@@ -99,12 +99,9 @@ func ruleR1(c *an.Ctx) {
 				return mayWriteFile(p, x, "CompleteFile") || mayWriteFile(p, x, "Errors")
 			},
 			BarrierEdge: func(from, to *ssa.BasicBlock) bool {
-				cnd, t, ok := an.EdgeCond(from, to)
-				if !ok {
-					return false
-				}
-				r := an.Normalize(cnd, t)
-				return r.Op == token.NEQ && (an.IsConst(r.Y, completeFile) || an.IsConst(r.X, completeFile))
+				return an.EdgeHolds(from, to, func(r an.Rel) bool {
+					return r.Op == token.NEQ && (an.IsConst(r.Y, completeFile) || an.IsConst(r.X, completeFile))
+				})
 			}}.Find()
 		c.Check("R1", "marker-before-journal@(*runner).Complete", in.Pos(), w2 == nil, "the _complete/_errors file must be written before its journal entry; "+c.WitnessString(w2))
 		// every phi edge that gives the target variable the value Errors comes from a block reached only after writing _errors
@@ -241,7 +238,7 @@ func ruleR1(c *an.Ctx) {
 					return true
 				}
 				if call, isCall := x.(*ssa.Call); isCall {
-					if f := call.Call.StaticCallee(); f != nil && f.Parent() == runJob {
+					if f := call.Call.StaticCallee(); f != nil && (f.Parent() == runJob || isPrivateHelperOf(p, runJob, f)) {
 						return closureWritesOrFails(f, write)
 					}
 				}
@@ -610,7 +607,11 @@ func ruleR5(c *an.Ctx) {
 			return
 		}
 		m := 0
-		for _, fn := range an.WithAnon(root) {
+		var hosts []*ssa.Function
+		for _, m := range familyOf(p, root, 2) {
+			hosts = append(hosts, an.WithAnon(m)...)
+		}
+		for _, fn := range hosts {
 			an.Instrs(fn, func(in ssa.Instruction) {
 				if !site(in) {
 					return
